@@ -305,6 +305,11 @@ func (s *sys) Apply(ev string) error {
 				s.add("healthy-consumer-delayed/"+c.Kind, "message #%d (%s) was not delivered to consumer %d (%s), which has never stalled", len(P)-1, P[len(P)-1].Kind, c.ID, c.Kind)
 			}
 		}
+		// whole units only: a reading consumer with nothing queued has received a byte stream that ends
+		// at a unit boundary
+		if c.Rtsp != nil && !st.stalled && cn.Pending() == 0 && c.Rtsp.Residue() > 0 {
+			s.add("framing/rtsp", "consumer %d (rtsp, stalled before: %v) is reading and nothing is queued, but the bytes it received end %d bytes into an interleaved frame or message", c.ID, st.everStall, c.Rtsp.Residue())
+		}
 		// a healthy consumer has nothing queued once the step has settled
 		if !st.stalled && cn.Pending() > 0 {
 			s.add("queue-not-drained/"+c.Kind, "consumer %d (%s) is reading but %d writes are still queued after the step settled", c.ID, c.Kind, cn.Pending())
